@@ -1,10 +1,13 @@
 #!/bin/sh
 # tools/try_seed.sh <seed id> <property> [more properties]: apply seeded/<id>/patch.diff to /repo,
-# run the quick checks, undo the patch.
+# run the quick checks, undo the patch.  Evidence files are saved and restored
+# so that runs against a mutated tree never end up committed.
 id=$1; shift
 cd /repo || exit 2
 if ! git diff --quiet; then echo "/repo has uncommitted changes"; exit 2; fi
 git apply /verif/seeded/$id/patch.diff || { echo "patch does not apply"; exit 2; }
 cd /verif
-for p in "$@"; do ./check $p --tier ${TIER:-quick} | grep -v "^KNOWN-FINDING" ; echo "exit=$? ($p with seed $id)"; done
+rm -rf .evidence.bak; cp -r evidence .evidence.bak
+for p in "$@"; do ./check $p --tier ${TIER:-quick} | grep -v "^KNOWN-FINDING" ; echo "($p with seed $id)"; done
 git -C /repo checkout -- .
+rm -rf evidence; mv .evidence.bak evidence
